@@ -164,7 +164,7 @@ func VerifH_C17_managerHistory() {
 	db := bm.NewDB()
 	fm := &Server{status: FuseManagerWaitInit, ms: db, dbOpener: &dbOpener{}, fuseStoreAddr: "/run/store.db"}
 	ctx := context.Background()
-	initOK := false // this manager instance has been initialised (it owns a filesystem instance)
+	initOK := false            // this manager instance has been initialised (it owns a filesystem instance)
 	var failedRestore []string // mountpoints recorded but not restored by the last (failed) Init
 	labelsOf := map[string]string{}
 
